@@ -65,6 +65,35 @@ def boundary_ints():
     return _BOUNDARY
 
 
+def boundary_bits(rng, n):
+    """random content, biased towards the boundary patterns of integer interpretations in either byte order"""
+    r = rng.random()
+    if n == 0 or r < 0.55:
+        return [rng.random() < 0.5 for _ in range(n)]
+    kind = rng.choice(['zeros', 'ones', 'first1', 'last1', 'lastbyte80', 'firstbyte80', 'first0', 'last0', 'lastbyte7f', 'alt'])
+    if kind == 'zeros':
+        return [False] * n
+    if kind == 'ones':
+        return [True] * n
+    if kind == 'first1':
+        return [True] + [False] * (n - 1)
+    if kind == 'last1':
+        return [False] * (n - 1) + [True]
+    if kind == 'first0':
+        return [False] + [True] * (n - 1)
+    if kind == 'last0':
+        return [True] * (n - 1) + [False]
+    if kind == 'alt':
+        return [i % 2 == 0 for i in range(n)]
+    if n >= 8 and kind == 'lastbyte80':
+        return [False] * (n - 8) + [True] + [False] * 7
+    if n >= 8 and kind == 'firstbyte80':
+        return [True] + [False] * (n - 1)
+    if n >= 8 and kind == 'lastbyte7f':
+        return [True] * (n - 8) + [False] + [True] * 7
+    return [rng.random() < 0.5 for _ in range(n)]
+
+
 def gen_inputs(interp, shape, rng, n_samples, max_len=10, int_range=14, exhaustive_len=None):
     """yield concrete input dicts satisfying the shape's assumptions"""
     if getattr(shape, 'gen', None) is not None:
@@ -76,10 +105,28 @@ def gen_inputs(interp, shape, rng, n_samples, max_len=10, int_range=14, exhausti
     if names and all(d[0] == 'int' for _, d in names):
         # integer-only shapes: sweep the power-of-two boundaries (codeword lengths, range limits, float precision limits)
         cands = boundary_ints()
-        if len(names) == 1 and n_samples >= 100:
+        small = [c for c in cands if abs(c) <= 70]
+
+        def is_value(nm):
+            # only *values* get astronomically large candidates; lengths, positions and counts stay small (they size buffers)
+            return nm in ('i', 'v', 'value', 'x') or (nm.startswith('v') and nm[1:].isdigit())
+        if len(names) == 1 and n_samples >= 100 and is_value(names[0][0]):
             pool = [{names[0][0]: v} for v in cands]
         else:
-            pool = [{nm: rng.choice(cands if rng.random() < 0.6 else list(range(-9, 70))) for nm, _ in names} for _ in range(n_samples * 6)]
+            pool = []
+            for _ in range(n_samples * 6):
+                vals = {}
+                for nm, _d in names:
+                    src = cands if (is_value(nm) and rng.random() < 0.6) else (small if rng.random() < 0.5 else list(range(-9, 70)))
+                    vals[nm] = rng.choice(src)
+                # a value near the limits of the chosen length is the interesting case
+                lens = [vals[nm] for nm, _d in names if not is_value(nm) and 0 < vals[nm] <= 70]
+                if lens and rng.random() < 0.5:
+                    k = rng.choice(lens)
+                    for nm, _d in names:
+                        if is_value(nm):
+                            vals[nm] = rng.choice([1 << k, (1 << k) - 1, 1 << (k - 1), (1 << (k - 1)) - 1, -(1 << (k - 1)), -(1 << (k - 1)) - 1, 0, -1])
+                pool.append(vals)
         produced = 0
         for vals in pool:
             try:
@@ -98,7 +145,7 @@ def gen_inputs(interp, shape, rng, n_samples, max_len=10, int_range=14, exhausti
         tried += 1
         vals = {}
         big = max_len * 4
-        L = rng.choice([0, 1, 2, 3, 5, 7, 8, 9, max_len, rng.randint(0, max_len), rng.randint(0, big), big])
+        L = rng.choice([8, 16, 24, 32, 0, 1, 2, 3, 5, 7, 8, 9, max_len, rng.randint(0, max_len), rng.randint(0, big), big])
         for name, d in names:
             if d[0] == 'int':
                 if name.endswith('.ml') or name.endswith('.pos'):
@@ -111,7 +158,7 @@ def gen_inputs(interp, shape, rng, n_samples, max_len=10, int_range=14, exhausti
                 n = rng.choice([L, L, rng.randint(0, max_len)])
                 if name.endswith('.raw'):
                     n = 8 * rng.randint(0, max(1, (max_len + 7) // 8 + 1))
-                vals[name] = [rng.random() < 0.5 for _ in range(n)]
+                vals[name] = boundary_bits(rng, n)
         try:
             if not _eval_assumptions(S, vals):
                 continue
